@@ -1,3 +1,5 @@
+//go:build verif_e1
+
 package ct
 
 import "bytes"
